@@ -116,7 +116,8 @@ func proxyPart(r *seq.Run, tier string) {
 	}
 	for _, capset := range []string{"basic", "flusher", "full"} {
 		var rec func(calls []string, script []int)
-		abort := false // the handler leaves by panic(http.ErrAbortHandler) after its calls (the documented way to abort)
+		method := "GET" // the request's method: what the writer accepted is reported whatever it is
+		abort := false  // the handler leaves by panic(http.ErrAbortHandler) after its calls (the documented way to abort)
 		run := func(calls []string, script []int) {
 			u := &under{hdr: http.Header{}, script: script}
 			var w http.ResponseWriter = u
@@ -219,7 +220,7 @@ func proxyPart(r *seq.Run, tier string) {
 					panic(http.ErrAbortHandler)
 				}
 			}))
-			req := &http.Request{Method: "GET", URL: &url.URL{Path: "/"}, Header: http.Header{}}
+			req := &http.Request{Method: method, URL: &url.URL{Path: "/"}, Header: http.Header{}}
 			// an earlier request served through the same middleware (status 404, 7 body bytes): whatever it leaves
 			// behind - a recycled proxy, a package-level scratch value - must not colour this request's report
 			{
@@ -250,10 +251,10 @@ func proxyPart(r *seq.Run, tier string) {
 				h.ServeHTTP(w, req)
 			}()
 			r.Transitions += int64(len(calls))
-			r.Eval(fmt.Sprint(capset, calls, script, abort, gotStatus, gotSize), len(script) > 0)
+			r.Eval(fmt.Sprint(capset, method, calls, script, abort, gotStatus, gotSize), len(script) > 0)
 			wantStatus := refStatus
 			if called != 1 || gotStatus != wantStatus || gotSize != refSize || gotSize != u.accepted {
-				r.Violation("", fmt.Sprintf("proxy/%s/%v", capset, gotStatus == wantStatus), fmt.Sprintf("capabilities=%s calls=%v answers=%v abort=%v: AccessHandler reported (status=%d,size=%d) x%d, reference (status=%d,size=%d); underlying writer saw codes %v and accepted %d bytes", capset, calls, script, abort, gotStatus, gotSize, called, wantStatus, refSize, u.codes, u.accepted), fmt.Sprint(capset, calls, script, abort))
+				r.Violation("", fmt.Sprintf("proxy/%s/%v", capset, gotStatus == wantStatus), fmt.Sprintf("capabilities=%s method=%q calls=%v answers=%v abort=%v: AccessHandler reported (status=%d,size=%d) x%d, reference (status=%d,size=%d); underlying writer saw codes %v and accepted %d bytes", capset, method, calls, script, abort, gotStatus, gotSize, called, wantStatus, refSize, u.codes, u.accepted), fmt.Sprint(capset, method, calls, script, abort))
 			}
 			if len(u.codes) > 0 && wantStatus != 0 && u.codes[0] != wantStatus {
 				r.Violation("", "proxy/forwarded-code", fmt.Sprintf("capabilities=%s calls=%v: the underlying writer was sent %v, the first WriteHeader/implicit 200 is %d", capset, calls, u.codes, wantStatus), fmt.Sprint(capset, calls))
@@ -266,6 +267,13 @@ func proxyPart(r *seq.Run, tier string) {
 				abort = true
 				run(calls, script)
 				abort = false
+				// and under the other request methods (a HEAD response's body bytes are counted like any other's when
+				// the underlying writer accepted them)
+				for _, m := range []string{"HEAD", "POST", "OPTIONS", ""} {
+					method = m
+					run(calls, script)
+				}
+				method = "GET"
 			}
 			if len(calls) == L {
 				return
